@@ -4,8 +4,8 @@ From V.C17 Require Import Model Proofs.
 Import ListNotations.
 Local Open Scope N_scope.
 
-(* After ANY sequence of add / mark-executed (with evictions) / unmark / pack / lookup operations on an
-   empty pool, of any length and with arbitrary arguments: pending hashes are pairwise distinct and no
+(* After ANY sequence of add / mark-executed (with evictions) / unmark / pack / lookup / background-expiry
+   operations on an empty pool, of any length and with arbitrary arguments: pending hashes are pairwise distinct and no
    pending transaction has an executed record. *)
 Theorem C17_disjoint : forall lim ops,
   let s := run lim empty ops in
@@ -94,16 +94,69 @@ Theorem C17_less_016_refuted :
 Proof. exact (proj2 (proj2 (proj2 (proj2 (proj2 (proj2 less_016_not_transitive)))))). Qed.
 Print Assumptions C17_less_016_refuted.
 
-(* Schedules. PARTIAL: only those interleavings of the fine-grained semantics are covered in which every
-   add's existence check is immediately followed by its push (i.e. add is atomic w.r.t. all other pool
-   methods); Go data races on pool.batch and memory-model effects are outside any model here. *)
+(* Schedules, the repaired code (pool-level lock, /repo commit "fix: TxPool serialises ..."): for EVERY
+   schedule of the fine-grained steps of any number of threads -- AddTransaction split into Lock;check and
+   push;Unlock, MarkExecuted into Lock;record-writes and remove;Unlock, UnMarkExecuted into one
+   delete-and-re-add step per transaction, a step that needs the lock waiting while another thread holds
+   it, PackForCast / lookups / background expiry running at any time without the lock --
+   (a) whenever no MarkExecuted is between its two halves, the pool is a state that a sequential history
+       reaches, so pending and executed are disjoint;
+   (b) always, pending hashes are pairwise distinct and a transaction that is both pending and executed is
+       one of the block whose MarkExecuted is in flight (its records are written, its removal is next).
+   PARTIAL w.r.t. the property's "schedules" quantifier: this is the model's step granularity (an
+   UnMarkExecuted step is delete+check+push of one transaction); mutual exclusion of sync.Mutex and the
+   internal synchronisation of gmap.ListMap / LevelDB / lru.Cache are trusted; Go data races and
+   memory-model effects are outside the model. *)
+Theorem C17_locked_schedules_partial : forall lim sched,
+  let s := lrun lim linit sched in
+  (mark_idle s -> (exists ops, lpool s = run lim empty ops) /\ inv (lpool s)) /\
+  NoDup (hashes (received (lpool s))) /\
+  (forall h, In h (hashes (received (lpool s))) -> In h (exec_keys (lpool s)) ->
+     exists tid txs ev, holder s = Some (tid, KMark txs ev) /\ In h (hashes txs)).
+Proof. exact locked_schedules. Qed.
+Print Assumptions C17_locked_schedules_partial.
+
+(* The sub-steps are the methods: the two halves of MarkExecuted compose to mark_executed, the
+   per-transaction steps of UnMarkExecuted to unmark. *)
+Theorem C17_substeps_compose : forall lim s txs ev t r,
+  mark_remove (mark_write s txs ev) txs ev = mark_executed s txs ev /\
+  unmark lim s (t :: r) ev = fold_left (fun s0 t0 => unmark lim s0 [t0] []) r (unmark lim s [t] ev).
+Proof. intros. split; [apply mark_split | apply unmark_split]. Qed.
+Print Assumptions C17_substeps_compose.
+
+(* ... and every batch packed under any such schedule while no MarkExecuted is between its halves has the
+   packing properties. (A PackForCast that reads the pending list between the halves may return a
+   transaction of the block being recorded: the same batch it would have returned just before that block
+   arrived.) *)
+Theorem C17_pack_any_schedule_partial : forall lim sched f st cap,
+  p018 f = true -> p023 f || p021 f = true ->
+  let s := lrun lim linit sched in
+  mark_idle s ->
+  let p := pack f st cap (lpool s) in
+  NoDup (hashes p) /\ N.of_nat (length p) <= cap /\ incl p (received (lpool s)) /\
+  (forall t, In t p -> ~ In (thash t) (exec_keys (lpool s))) /\
+  StronglySorted asc_rel p /\ not_ahead st p.
+Proof. exact pack_any_schedule. Qed.
+Print Assumptions C17_pack_any_schedule_partial.
+
+(* Background expiry modelled exactly (ring counter per pending entry, growRing tick): every timed history
+   reaches a state of the untimed semantics (a tick is an OExpire of the entries that reached ring 5), so
+   all theorems above cover it. *)
+Theorem C17_expiry_refines : forall lim tops,
+  let s := tp (trun lim (mkT empty []) tops) in (exists ops, s = run lim empty ops) /\ inv s.
+Proof. exact timed_refines_empty. Qed.
+Print Assumptions C17_expiry_refines.
+
+(* The same steps without the lock (the code before the fix). PARTIAL: only those interleavings are covered
+   in which every add's existence check is immediately followed by its push. *)
 Theorem C17_interleaved_partial : forall lim sched ops,
   collapse sched = Some ops -> inv (fpool (frun lim (mkF empty []) sched)).
 Proof. exact interleaved_atomic_inv. Qed.
 Print Assumptions C17_interleaved_partial.
 
-(* Without that atomicity the property fails: check ; mark-executed ; push leaves an executed
-   transaction pending, and it is packed again even though the sender's nonce has moved past it. *)
+(* Without that atomicity (no pool lock: the code before the fix) the property fails: check ;
+   mark-executed ; push leaves an executed transaction pending, and it is packed again even though the
+   sender's nonce has moved past it. *)
 Theorem C17_race_refuted : exists lim sched t f st cap,
   let s := fpool (frun lim (mkF empty []) sched) in
   In t (received s) /\ In (thash t) (exec_keys s) /\ ~ inv s /\ In t (pack f st cap s).
